@@ -5,9 +5,10 @@ From PV Require Export Model.Send.
 Open Scope N_scope.
 
 (* ------------------------------------------------------------------ *)
-(* RawOption.marshal: l = int(Length*8) (uint8 arithmetic); error unless 2+len(Value) = l *)
+(* RawOption.marshal: l = int(Length)*8 (since fix 5a1aeef; was int(Length*8) in uint8 arithmetic, which
+   wrapped for Length >= 32); error unless 2+len(Value) = l *)
 Definition raw_option (ty len : N) (value : bytes) : option bytes :=
-  let l := N.to_nat (u8 (len * 8)) in
+  let l := N.to_nat (8 * u8 len) in
   if Nat.eqb (2 + List.length value) l then Some ([u8 ty; u8 len] ++ value) else None.
 
 (* LinkLayerAddress.marshal: direction 1/2, MAC must be 6 bytes *)
